@@ -20,6 +20,7 @@ FUNCTIONS = [
 BOUNDS = {
     "plain": "two records with two carrier fields and _source: all ints / None / strings <= 2 chars, every ignored subset of {x, _source}, same or different descriptor",
     "shapes": "nested record, list of <= 2 carriers, grouped records with 0..2 members each",
+    "hash after assignment": "plain / grouped (member handed in, member through .records) / nested record: hash, assign, compare with a rebuilt twin",
     "scopes": "outer configuration = every subset of 3 names, inner = every subset, body raising or not, one level of nesting",
     "types": "20 field types with representative values (contents beyond the table: outside)",
 }
@@ -144,6 +145,73 @@ def shapes(shape: str, with_hash: bool = False):
         if with_hash and got and hash(a) != hash(b):
             return False
         return got == exp and rev == exp and (a == a) and (a != b) == (not exp)
+
+    return check
+
+
+def mutation_problem(kind, ign_generated):
+    """hash follows the CURRENT values: hash a record, assign a field (directly / on a member handed to the constructor / on a member
+    reached through .records / on a nested record), then compare with an independently built record holding the new values."""
+    import flow.record.base as B
+    from flow.record import GroupedRecord, RecordDescriptor
+
+    P = RecordDescriptor("t/p", [("varint", "x"), ("varint", "y"), ("string", "s")])
+    A = RecordDescriptor("t/a", [("varint", "v")])
+    Bd = RecordDescriptor("t/b", [("varint", "w")])
+    IN = RecordDescriptor("t/in", [("varint", "v")])
+    H = RecordDescriptor("t/h", [("record", "inner"), ("record[]", "many")])
+    other = _dt.datetime(2021, 2, 3, tzinfo=_dt.timezone.utc)
+    g2 = GEN if not ign_generated else other  # with _generated ignored the twin may differ in it
+    with B.ignore_fields_for_comparison({"_generated"} if ign_generated else set()):
+        try:
+            if kind == 0:
+                r = P(1, None, "s", _generated=GEN)
+                hash(r)
+                r.x = 2
+                twin, what = P(2, None, "s", _generated=g2), "a plain record"
+            elif kind == 1:
+                ma, mb = A(1, _generated=GEN), Bd(2, _generated=GEN)
+                r = GroupedRecord("g", [ma, mb])
+                hash(r)
+                mb.w = 3
+                twin, what = GroupedRecord("g", [A(1, _generated=g2), Bd(3, _generated=g2)]), "a grouped record whose member (the object handed to the constructor) was assigned a new value"
+            elif kind == 2:
+                r = GroupedRecord("g", [A(9, _generated=GEN), Bd(2, _generated=GEN)])
+                hash(r)
+                r.records[0].v = 1
+                twin, what = GroupedRecord("g", [A(1, _generated=g2), Bd(2, _generated=g2)]), "a grouped record whose member (reached through .records) was assigned a new value"
+            else:
+                inner = IN(5, _generated=GEN)
+                r = H(inner, [IN(2, _generated=GEN)], _generated=GEN)
+                hash(r)
+                inner.v = 1
+                twin, what = H(IN(1, _generated=g2), [IN(2, _generated=g2)], _generated=g2), "a record whose nested record was assigned a new value"
+            if not (r == twin and twin == r):
+                return f"{what} after hashing: not equal to an independently built record with the same values (ignore _generated: {ign_generated})"
+            if hash(r) != hash(twin) or r not in {twin}:
+                return f"{what} after hashing: equal to an independently built record but hashes differently / is not found in a set (ignore _generated: {ign_generated})"
+        except Exception as e:  # noqa: BLE001
+            return f"mutation kind {kind}: raised {type(e).__name__}: {e}"
+    return None
+
+
+def mutation():
+    """path-exhaustive over (kind of record, which part is assigned, _generated ignored or not); concrete part untraced (hash() is C)"""
+    from crosshair.tracers import NoTracing
+
+    def check(kind: int, ign: bool) -> bool:
+        """
+        post: _
+        """
+        if not (0 <= kind <= 3):
+            return True
+        k = 0
+        for j in range(4):
+            if kind == j:
+                k = j
+        g = True if ign else False
+        with NoTracing():
+            return mutation_problem(k, g) is None
 
     return check
 
@@ -281,6 +349,7 @@ def obligations(tier, seed):
     for s in ("nested", "list", "grouped"):
         obs.append(ob(f"O2-shape/{s}", "xh", "shapes", {"shape": s}, timeout=to * 2, group="O2-shape"))
         obs.append(ob(f"O2-shape-hash/{s}", "xh", "shapes", {"shape": s, "with_hash": True}, timeout=20, group="O2-shape", bounds="hunt only", hunt_only=True))
+    obs.append(ob("O5-hash-after-assignment", "xh", "mutation", {}, timeout=to, bounds="4 kinds of record / assigned part x _generated ignored or not (path-exhaustive)"))
     obs.append(ob("O3-scopes", "xh", "scopes", {}, timeout=to * 3, bounds="outer 2^3 x inner 2^3 x nested inner 2^2 x raises x nested x set/scope"))
     obs.append(ob("O4-types", "xh", "types", {}, timeout=to, bounds=f"{len(TYPE_TABLE)} field types x 4 variations (path-exhaustive over the table)"))
     return obs
@@ -358,6 +427,11 @@ def replay(res):
     with B.ignore_fields_for_comparison({"_generated"}):
         expect(lambda: g2 == g5 and hash(g2) == hash(g5) and len({g2, g5}) == 1, "a grouped record and its rebuilt copy differ under ignore {_generated}")
     expect(lambda: not (g2 == g3) and not (g2 == g5), "without the configuration the differing grouped records compare equal")
+    for kind in range(4):
+        for ig in (False, True):
+            p_ = mutation_problem(kind, ig)
+            if p_:
+                probs.append(p_)
     # ... and to nested records (record and record[] fields)
     IN = RecordDescriptor("t/in", [("varint", "v")])
     H = RecordDescriptor("t/h", [("record", "inner"), ("record[]", "many")])
